@@ -97,8 +97,15 @@ pub fn run(tier: Tier) -> i32 {
                 rep.report(format!("index_out_of_range:{}", name), json!({"kind": "lookup", "piece": name, "square": sq_name(sq), "occupancy": occ, "index": idx, "table_len": tlen, "variant": what}));
                 return false;
             }
-            let got = magic::lookup(rook, sq as u32, occ);
+            // the table the move generator reads (whatever board.rs's imports are bound to) ...
+            let got = inkayaku_board::verif::in_use::slider(rook, sq as u32, occ);
             let want = ref_attacks(rook, sq, occ);
+            // ... and the table of constants in magic.rs, should the two ever be different objects
+            let got_const = magic::lookup(rook, sq as u32, occ);
+            if got == want && got_const != want {
+                rep.report(format!("wrong_attack_set_in_constant_table:{}:{}", name, what), json!({"kind": "lookup", "piece": name, "square": sq_name(sq), "occupancy": occ, "expected": want, "actual": got_const, "variant": what}));
+                return false;
+            }
             if got != want {
                 rep.report(format!("wrong_attack_set:{}:{}", name, what), json!({"kind": "lookup", "piece": name, "square": sq_name(sq), "occupancy": occ, "expected": want, "actual": got, "variant": what}));
                 return false;
@@ -190,8 +197,11 @@ pub fn run(tier: Tier) -> i32 {
     for which in 0..4u32 {
         for sq in 0..64u8 {
             leaper_entries += 1;
-            let got = nonmagic::leaper(which, sq as u32);
+            let got = inkayaku_board::verif::in_use::leaper(which, sq as u32);
             let want = ref_leaper(which, sq);
+            if got == want && nonmagic::leaper(which, sq as u32) != want {
+                rep.report(format!("leaper_entry_in_constant_table:{}", names[which as usize]), json!({"kind": "leaper", "table": names[which as usize], "square": sq_name(sq), "expected": want, "actual": nonmagic::leaper(which, sq as u32)}));
+            }
             if got != want {
                 rep.report(format!("leaper_entry:{}", names[which as usize]), json!({"kind": "leaper", "table": names[which as usize], "square": sq_name(sq), "expected": want, "actual": got}));
             }
